@@ -139,6 +139,11 @@ class GlomError(Exception):
         exc_wrapper_type = type(f"GlomError.wrap({exc_type.__name__})", bases, {})
         try:
             wrapper = exc_wrapper_type(*exc.args)
+            # a constructor that derives its args or attributes from its
+            # parameters (e.g. builds a message) has now run on its own
+            # output: keep what the original had
+            wrapper.args = exc.args
+            wrapper.__dict__.update(exc.__dict__)
             wrapper.__wrapped = exc
             return wrapper
         except Exception:  # maybe exception can't be re-created
@@ -2306,6 +2311,7 @@ def glom(target, spec, **kwargs):
             # stack trace with the explicit "raise err" below
             try:
                 err = copy.copy(e)
+                err.args = e.args  # copying re-runs __init__ on e.args
             except Exception:  # e.g. a subclass whose __init__ does not take *args
                 err = e
             err._set_wrapped(e)
